@@ -20,7 +20,7 @@ TECHNIQUE = ('bounded exhaustive enumeration of strictly increasing grids from a
              'tensor-polynomial and table oracles')
 RULE = ('every strictly increasing subset of the lattice {-3,-2,-0.5,0,0.75,2,3.5} of the sizes a '
         'method accepts (1-D: k..5 points, 2-D: all pairs of grids, 3-D: all triples of a grid '
-        'family) x 19 table methods x {nodes, cell mid/quarter points, both boundaries, near and far '
+        'family) x 18 table methods x {nodes, cell mid/quarter points, both boundaries, near and far '
         'outside, NaN} per axis x extrapolate on/off x {polynomial-class table, generic table} x '
         '{one batched call, sequence of single calls, batch-then-single} through InterpND.interpolate,'
         ' MetaModelStructuredComp (vec_size 1 and 3) and MetaModelSemiStructuredComp; one evaluation '
